@@ -37,6 +37,15 @@ def selftest(ctx, prop):
         "results": ["%s %s %s: %s" % r for r in res],
     }
     ctx.count("selftest_variants_applied", len(applied))
+    import corpus
+
+    cres = corpus.run_for_property(prop, repo=ctx.repo)
+    cbad = [r for r in cres if r[2] == "FAIL"]
+    ctx.extra["selftest"]["corpus_replayed"] = len([r for r in cres if r[2] != "n/a"])
+    ctx.extra["selftest"]["corpus_not_applicable"] = len([r for r in cres if r[2] == "n/a"])
+    ctx.extra["selftest"]["corpus_misbehaved"] = ["%s %s: %s" % (r[0], r[1], r[3]) for r in cbad]
+    ctx.extra["selftest"]["corpus_seeded"] = ["%s %s %s" % (r[1], r[2], r[3]) for r in cres if r[0] == "seeded"]
+    bad = bad + [("corpus", r[1], r[2], r[3]) for r in cbad]
     if bad:
         raise AnalysisError("self-test of the analyser failed (an analyser defect, not a property verdict): %s" % "; ".join("%s %s" % (r[1], r[3]) for r in bad[:3]))
 
